@@ -369,7 +369,56 @@ class CFG:
                 r = self.reachable(self.entry.id, avoid_edges=[(t.id, b, lab)])
                 if node not in r:
                     out.append((t.ast, lab == "true"))
-        return out
+        # a test on a boolean local that names a condition (`ok = a and not b` ... `if ok:`): add the facts the named
+        # condition implies, so that rules see the same guards whether or not the condition was given a name
+        extra = []
+        for t, pol in out:
+            if isinstance(t, ast.Name):
+                d = self._single_definition(t.id)
+                if d is not None:
+                    extra.extend(self._facts(d, pol))
+        return out + extra
+
+    def is_named_condition(self, t: ast.AST) -> bool:
+        """a guard that is only the NAME of a condition whose facts guards() has already added"""
+        return isinstance(t, ast.Name) and self._single_definition(t.id) is not None
+
+    def _single_definition(self, name: str) -> Optional[ast.expr]:
+        if not hasattr(self, "_defs"):
+            self._defs = {}
+            for x in ast.walk(self.fn):
+                if isinstance(x, (ast.Assign, ast.AnnAssign, ast.AugAssign, ast.For, ast.comprehension, ast.NamedExpr, ast.withitem)):
+                    tgts = x.targets if isinstance(x, ast.Assign) else [getattr(x, "target", None) or getattr(x, "optional_vars", None)]
+                    for tg in tgts:
+                        for nm in ast.walk(tg) if tg is not None else ():
+                            if isinstance(nm, ast.Name):
+                                val = x.value if isinstance(x, ast.Assign) and len(x.targets) == 1 and isinstance(tg, ast.Name) else None
+                                self._defs.setdefault(nm.id, []).append(val)
+            a = getattr(self.fn, "args", None)
+            if a is not None:
+                for p in a.posonlyargs + a.args + a.kwonlyargs + ([a.vararg] if a.vararg else []) + ([a.kwarg] if a.kwarg else []):
+                    self._defs.setdefault(p.arg, []).append(None)
+        ds = self._defs.get(name, [])
+        if len(ds) == 1 and ds[0] is not None and not isinstance(ds[0], ast.Constant):
+            return ds[0]
+        return None
+
+    def _facts(self, e: ast.expr, pol: bool, depth: int = 0) -> List[Tuple[ast.expr, bool]]:
+        if depth > 4:
+            return []
+        if isinstance(e, ast.UnaryOp) and isinstance(e.op, ast.Not):
+            return self._facts(e.operand, not pol, depth + 1)
+        if isinstance(e, ast.BoolOp):
+            if (isinstance(e.op, ast.And) and pol) or (isinstance(e.op, ast.Or) and not pol):
+                out = []
+                for v in e.values:
+                    out.extend(self._facts(v, pol, depth + 1))
+                return out
+            return [(e, pol)]
+        if isinstance(e, ast.Name):
+            d = self._single_definition(e.id)
+            return [(e, pol)] + (self._facts(d, pol, depth + 1) if d is not None else [])
+        return [(e, pol)]
 
     def loop_guards(self, node: int) -> List[ast.AST]:
         """Loop statements whose body contains node on every path (for-loop 'true' edges)."""
